@@ -26,5 +26,9 @@ CHECKS = {
             "text": "The only randomness source of the package (numpy.random.randint inside GeneratorKnotVector.random) is put behind a scripted seam that feeds adversarial and uniform draw vectors; generator postconditions and the affine maps are judged as transitions inside seeded histories (exact image of every knot, multiplicities kept, normalize onto exactly [0,1], refusal atomicity).",
             "note": _NOTE},
 }
+CHECKS["C10"] = {"engine": "memo", "technique": "deterministic simulation: seeded line-level thread scheduler (baton passing + sys.settrace) and asynchronous fault injection over the module-level memo tables; cold-answer and exact-moment oracles",
+                 "ref": "DESIGN.md section 5 (C10), section 3.3",
+                 "text": "The six module-level memo tables are the only state the library shares between callers. Each run restores them to import-time content, drives 1-3 simulated caller threads through seeded request lists (all rule families, colliding and neighbouring sizes, Integrate.*, table-consuming removals, invalid sizes, failing integrands) under a seeded scheduler that may switch threads at every Python line of heavy.py/calculus.py, injects at most one asynchronous exception at the k-th line of a request, and judges every answered request plus a final sweep for exactness to the rule's order, equality with the answer in a pristine state, and closed forms of spline integrals.",
+                 "note": _NOTE}
 PENDING = {k: "check under construction (planned engine, see DESIGN.md section 5); not claimed until it runs" for k in
-           ["C04", "C05", "C06", "C10", "C14", "C15"]}
+           ["C04", "C05", "C06", "C14", "C15"]}
